@@ -30,6 +30,18 @@ func parserInputs(o *propOpts, each func(e *entry, s string, origin string)) {
 	for _, p := range probes {
 		each(entryByName(p.entry), p.text, "probe")
 	}
+	for _, st := range g0Sentences(o.tier) {
+		each(entryByName(st.entry), st.text, "G0")
+	}
+	// systematic grafts: for every golden input, every node and every ABSENT optional single child, one text of the slot's type
+	// inserted after the preceding sibling and one at the end of the node
+	sys := 0
+	graftSystematic(r0(o.seed), func(e *entry, s string) {
+		sys++
+		if o.tier == "thorough" || sys%3 == int(o.seed%3) {
+			each(e, s, "graft-systematic")
+		}
+	})
 	nmut := 15000
 	if o.tier == "thorough" {
 		nmut = 120000
@@ -109,3 +121,5 @@ var probes = []struct{ entry, text string }{
 	{"ParseStatement", "CALL p(1, TABLE t, MODEL m)"}, {"ParseStatements", "SELECT 1,; SELECT 2"}, {"ParseStatements", ";;SELECT 1;; SELECT 2;"},
 	{"ParseStatements", "SELECT 1; /*c*/"}, {"ParseStatements", "SELECT 1; \x00; SELECT 2"}, {"ParseStatement", "a/*c*/b +"}, {"ParseStatement", "@{a=1} CREATE TABLE t (a INT64) PRIMARY KEY (a)"},
 }
+
+func r0(seed uint64) *rng { return &rng{s: seed ^ 0x5bd1e995} }
